@@ -314,3 +314,33 @@ def use_implicit_lines(u1: int, u2: int, im: int, has_im: bool) -> bool:
     ok = (len(flagged) == 1 and flagged[0].sline == im - 1 and flagged[0].severity == 1) if want else not flagged
     tock("use_implicit_lines")
     return ok
+
+
+def twice_lines(l1: int, l2: int, l3: int, same: bool) -> bool:
+    """'declared twice': with declarations of one name at FREE symbolic lines l1 < l2 (children are appended in source order) and an unrelated one at l3,
+    exactly the later declaration is flagged (severity 1, 0-based line, related = the first declaration)
+    pre: 1 < l1 and l1 < l2 and 1 < l3 and l1 != l3 and l2 != l3
+    post: _
+    """
+    tick("twice_lines")
+    from fortls.parsers.internal.variable import Variable
+
+    f = FortranFile("/w/a.f90")
+    ast = FortranAST(f)
+    m = Module(ast, 1, "m")
+    ast.add_scope(m, None)
+    a = Variable(ast, l1, "x", "INTEGER", [])
+    ast.add_variable(a)
+    b = Variable(ast, l2, "x" if same else "y", "REAL", [])
+    ast.add_variable(b)
+    c = Variable(ast, l3, "z", "REAL", [])
+    ast.add_variable(c)
+    ast.end_scope(l1 + l2 + l3)
+    errs = [d for d in m.check_definitions({}) if "declared twice" in d.message]
+    if same:
+        later, first = (l2, l1) if l2 > l1 else (l1, l2)
+        ok = len(errs) == 1 and errs[0].sline == later - 1 and errs[0].severity == 1 and errs[0].related_line == first - 1
+    else:
+        ok = not errs
+    tock("twice_lines")
+    return ok
